@@ -178,6 +178,15 @@ fn run_e7_t<T: crate::elem::El>(spec: &ShardSpec, cur: Option<&str>) -> Outcome 
     // at every resize start: take every element out of the old table again through the removal APIs
     // (remove / remove_entry / entry removal in turn), full audit once it is empty - old tables of every size
     let drain_old = spec.extra.get("drain_old").map_or(false, |s| s == "1");
+    // once per resize, as soon as it is feasible: remove just enough main-table elements that what the map
+    // must keep room for (len + the insertions needed to move the leftovers) equals a table capacity
+    // exactly, shrink_to_fit (zero slack), then the head-room probe
+    // ("tight_shrink" = d + 1: the need is made d above a table capacity - with d = 0 the fit is exact, with
+    // d > 0 a head-room estimate that is d too small still picks the smaller table)
+    let tight_delta: usize = spec.extra.get("tight_shrink").and_then(|s| s.parse::<usize>().ok()).unwrap_or(0);
+    let tight_shrink = tight_delta > 0;
+    let tight_delta = tight_delta.saturating_sub(1);
+    let mut tight_done = true;
     let mut w = match MapWorld::<T>::create(&cfg) {
         Ok(w) => w,
         Err(v) => {
@@ -230,6 +239,8 @@ fn run_e7_t<T: crate::elem::El>(spec: &ShardSpec, cur: Option<&str>) -> Outcome 
             resizes += 1;
             out.phases[1] += 1;
             since_resize = 0;
+            // (every other resize: a map shrunk to zero slack and filled resizes again at once, at the same size)
+            tight_done = resizes % 2 == 0;
         } else if since_resize != u32::MAX {
             since_resize += 1;
         }
@@ -254,6 +265,39 @@ fn run_e7_t<T: crate::elem::El>(spec: &ShardSpec, cur: Option<&str>) -> Outcome 
             }
             k = w.next_key;
             since_resize = u32::MAX;
+        }
+        if tight_shrink && !tight_done && since_resize != u32::MAX && since_resize >= 1 {
+            if let Some((l, _, _)) = st.old {
+                let r = griddle::verif::R;
+                let need = st.main_len + l + (l + r - 1) / r;
+                // largest table capacity not above `need`
+                let mut t = 3usize;
+                let mut b = 8usize;
+                while (if b == 8 { 7 } else { b / 8 * 7 }) <= need {
+                    t = if b == 8 { 7 } else { b / 8 * 7 };
+                    b *= 2;
+                }
+                let x = (need - t).wrapping_sub(tight_delta);
+                if l > 0 && need - t >= tight_delta && x <= st.main_len && t >= l + (l + r - 1) / r {
+                    tight_done = true;
+                    let d = w.dump();
+                    let main_ids: Vec<u32> = d.main.elems.iter().filter(|&&e| e != u64::MAX).map(|e| (e >> 8) as u32).take(x).collect();
+                    for id in main_ids {
+                        if !do_op(&mut w, Op::key(OpK::Remove, id), &mut out, &mut hist_tail) {
+                            break 'grow;
+                        }
+                    }
+                    for op in [Op::k(OpK::ShrinkToFit), Op::k(OpK::FillToCap)] {
+                        if !do_op(&mut w, op, &mut out, &mut hist_tail) {
+                            break 'grow;
+                        }
+                    }
+                    k = w.next_key;
+                    since_resize = u32::MAX;
+                }
+            } else {
+                tight_done = true;
+            }
         }
         if drain_old && since_resize == 1 {
             let ids = w.old_ids(&w.dump());
